@@ -1,8 +1,16 @@
 (* ProdParserValue.v -- the value grammar (css/value.py, tree_PropertyValue and its sub-grammars in Gen/ProdTrees.v)
    run by the production-engine model ProdParser.v on the rendered values of the generator grammar Grammar.v.
 
-   STATUS: stage 1 of the plan (generic step lemmas, stack configurations, partial evaluation, leaf sub-parsers,
-   token classes of tree_PropertyValue) is complete; value_accepts (stage 2+) is NOT proved here.
+   STATUS: stages 1 and 2 and the reader (stage 4) for the SINGLE-TOKEN fragment are complete:
+       value_accepts                   every rendered value whose terms are TmIdent (colour keyword or not) / TmNum /
+                                       TmDim / TmPct / TmStr / TmUrl / TmHex / TmURange, with all separators, in every
+                                       layout, d_imp = None or Some, is accepted, well-formed, kept by PostPV, and its
+                                       items without comments are value_items d   (depth budget 2)
+       value_grammar_faithful_simple   build_value (decl_value lay d (gopt lay ga)) = m_value d   under wf_value_js d
+     TmRgb / TmFunc / TmCalc (stage 3) are NOT covered: wf_term is False for them.
+     Stage 2 pieces: gap_off (G1), gap_on_until (G2), pv_gap_term (G3, incl. the SPend path), pv_tail (G4),
+     pv_term_body / pv_op_body / pv_ws_body, pv_sep_term, pv_more, value_run, tspec_simple.
+     Stage 1 pieces:
      - loop_mono, runs / runs_cont / runs_break / runs_end / runs_loop / runs_parse : fuel-free reasoning about `loop`
        from an ARBITRARY state (more fuel never changes a result that is not OutOfFuel);
      - body_comment / body_skipS / body_find : one iteration of the main loop by token class;
@@ -20,6 +28,7 @@
        selects), ex_value_accepts (closed end-to-end run).
    Stdlib only, no axioms. *)
 From CssV Require Import Base Regex Tokenizer ProdParser ProdParserFacts Gen.ProdTrees Grammar GrammarFacts.
+From CssV Require Selector.
 Local Open Scope nat_scope.
 
 
@@ -91,8 +100,7 @@ Section Steps.
         let st' := set_stack (set_started st) stack false in
         if l_stopnm st' then LBreak (set_stopall (set_stash st' (push_saved t (l_stash st')))) else LBreak (set_wf st' false)
     | FParseErr stack =>
-        let st' := set_stack (set_started st) stack (l_strict (set_started st)) in
-        if l_stopnm st' then LBreak (set_stopall (set_stash st' (push_pushed t (l_stash st')))) else LBreak (set_wf st' false)
+        LBreak (set_wf (set_stack (set_started st) stack (l_strict (set_started st))) false)
     | FFound p stack =>
         process sub postof p t (set_found (set_started st) stack (negb (p_mayend p)) (p_stopnm p || l_stopnm (set_started st)))
     | FSpin => LOut Spin
@@ -619,3 +627,758 @@ Example ex_value_accepts :
   exists r, pparse_env 3 env_real gid_PropertyValue (decl_value ex_lay ex_decl (gopt ex_lay 12)) = Ret r /\
             r_wf r = true /\ post PostPV r = PRet true (r_items r) [] /\ length (r_items r) = 16.
 Proof. eexists. split; [vm_compute; reflexivity|]. repeat split; vm_compute; reflexivity. Qed.
+
+
+(* ================================================================== Stage 2: gaps *)
+Ltac simpl_st :=
+  unfold set_stream, set_stash, set_afterS, add_item, set_store, set_wf, set_stopall, set_started, set_found, set_stack,
+         set_defaultS, set_keep;
+  cbn [l_stack l_seq l_store l_wf l_started l_stopall l_defaultS l_stopnm l_afterS l_strict l_keep l_own l_anc l_rest l_stash].
+
+(* a gap token: whitespace, or a comment (whose text is not one of the _SorTokens `until` strings) *)
+Definition gtok (t : tok) : Prop := isS t = true \/ (isS t = false /\ isC t = true /\ is_sub (val t) until = false).
+Definition gapT (g : list tok) : Prop := Forall gtok g.
+Definition cmt (t : tok) : item := IStr (s "CSSComment") (val t).
+(* the (reversed) item sequence after a gap: its comments are appended *)
+Fixpoint gitems (g : list tok) (seq : list item) : list item :=
+  match g with [] => seq | t :: r => gitems r (if isS t then seq else cmt t :: seq) end.
+
+Lemma isS_ty t : isS t = true -> ty t = s "S". Proof. unfold isS. apply eqs_spec. Qed.
+Lemma isS_notC t : isS t = true -> isC t = false.
+Proof. intros H. unfold isC. rewrite (isS_ty t H). reflexivity. Qed.
+Lemma isS_plain t : isS t = true -> plain_ty (ty t).
+Proof. intros H. rewrite (isS_ty t H). repeat split; reflexivity. Qed.
+
+Lemma gopt_gap lay g : gapT (gopt lay g).
+Proof.
+  unfold gopt, gap_opt. destruct (Nat.modulo (lk lay g) 7) as [|[|[|[|[|[|n]]]]]];
+    repeat constructor; (left; reflexivity) || (right; repeat split; reflexivity).
+Qed.
+Lemma greq_gap lay g : gapT (greq lay g).
+Proof.
+  unfold greq, gap_req. destruct (Nat.modulo (lk lay g) 5) as [|[|[|[|n]]]];
+    repeat constructor; (left; reflexivity) || (right; repeat split; reflexivity).
+Qed.
+
+Lemma dropS_app g x R : gapT g -> isS x = false -> dropS (g ++ x :: R) = dropS g ++ x :: R.
+Proof.
+  intros Hg Hx. induction Hg as [|a g Ha Hg IH]; cbn [app dropS]; [rewrite Hx; reflexivity|].
+  destruct Ha as [Ha|[Ha _]]; rewrite Ha; [exact IH|reflexivity].
+Qed.
+Lemma dropS_spec g : gapT g ->
+  (dropS g = [] /\ forall seq, gitems g seq = seq) \/
+  (exists c g3, dropS g = c :: g3 /\ isS c = false /\ isC c = true /\ is_sub (val c) until = false /\ gapT g3 /\
+                length g3 < length g /\ forall seq, gitems g seq = gitems g3 (cmt c :: seq)).
+Proof.
+  intros Hg. induction Hg as [|a g Ha Hg IH]; [left; split; reflexivity|].
+  cbn [dropS gitems length]. destruct Ha as [Ha|[Ha [Hc Hu]]]; rewrite Ha.
+  - destruct IH as [[H1 H2]|[c [g3 [H1 [H2 [H3 [H4 [H5 [H6 H7]]]]]]]]]; [left; auto|].
+    right. exists c, g3. repeat split; auto.
+  - right. exists a, g. repeat split; auto.
+Qed.
+
+Lemma sorC a r : isS a = false -> isC a = true -> sor_raw (a :: r) = Some (a, true, None, r).
+Proof. intros H1 H2. cbn [sor_raw]. rewrite H1, H2. reflexivity. Qed.
+Lemma sorT a r : isS a = false -> isC a = false -> sor_raw (a :: r) = Some (a, false, None, r).
+Proof. intros H1 H2. cbn [sor_raw]. rewrite H1, H2. reflexivity. Qed.
+Lemma sorS a r : isS a = true ->
+  sor_raw (a :: r) = match dropS r with
+                     | [] => Some (a, false, None, [])
+                     | n :: r' => if is_sub (val n) until then Some (n, false, None, r')
+                                  else if isC n then Some (n, true, None, r') else Some (a, false, Some n, r')
+                     end.
+Proof. intros H1. cbn [sor_raw]. rewrite H1. reflexivity. Qed.
+
+Lemma pull_on stk seq sto wf started stopall dS stopnm afterS strict keep L t on pend l' :
+  sor_raw L = Some (t, on, pend, l') ->
+  pull (mkLs stk seq sto wf started stopall dS stopnm afterS strict keep SOn false L stash0) =
+  Some (t, mkLs stk seq sto wf started stopall dS stopnm afterS strict keep
+                (match pend with Some x => SPend x | None => if on then SOn else SOff end) false l' stash0).
+Proof. intros H. unfold pull. cbn [l_stash saved stash0 l_own l_anc l_rest spull]. rewrite H. reflexivity. Qed.
+Lemma pull_on_end stk seq sto wf started stopall dS stopnm afterS strict keep :
+  pull (mkLs stk seq sto wf started stopall dS stopnm afterS strict keep SOn false [] stash0) = None.
+Proof. reflexivity. Qed.
+
+Section Gaps.
+  Variable sub : nat -> bool -> tok -> list tok -> out.
+  Variable postof : nat -> option postcode.
+  Notation RUN := (runs opts0 sub postof).
+
+  (* (G1) own = SOff, defaultS = True: whitespace is dropped, comments are appended *)
+  Lemma gap_off g : gapT g -> forall stk seq sto wf started stopall stopnm afterS strict keep R r,
+    RUN (mkLs stk (gitems g seq) sto wf started stopall true stopnm afterS strict keep SOff false R stash0) r ->
+    RUN (mkLs stk seq sto wf started stopall true stopnm afterS strict keep SOff false (g ++ R) stash0) r.
+  Proof.
+    intros Hg. induction Hg as [|a g Ha Hg IH]; intros stk seq sto wf started stopall stopnm afterS strict keep R r H; [exact H|].
+    cbn [app gitems] in *. destruct Ha as [Ha|[Ha [Hc _]]]; rewrite Ha in H.
+    - eapply runs_cont; [reflexivity|rewrite body_skipS; [reflexivity|reflexivity|reflexivity|exact Ha|reflexivity]|].
+      simpl_st. apply IH. exact H.
+    - eapply runs_cont; [reflexivity|rewrite body_comment; [reflexivity|reflexivity|exact Hc]|].
+      simpl_st. apply IH. exact H.
+  Qed.
+
+  (* (G2) own = SOn: a gap before `,` or `/`: whitespace is dropped, comments are appended, then the token itself *)
+  Lemma gap_on_until x : isS x = false -> isC x = false -> is_sub (val x) until = true ->
+    forall n g, length g <= n -> gapT g -> forall stk seq sto wf started stopall dS stopnm afterS strict keep R r st2,
+    body opts0 sub postof x (mkLs stk (gitems g seq) sto wf started stopall dS stopnm afterS strict keep SOff false R stash0) = LCont st2 ->
+    RUN st2 r ->
+    RUN (mkLs stk seq sto wf started stopall dS stopnm afterS strict keep SOn false (g ++ x :: R) stash0) r.
+  Proof.
+    intros Hx1 Hx2 Hx3. induction n as [|n IH]; intros g Hn Hg stk seq sto wf started stopall dS stopnm afterS strict keep R r st2 Hb Hr.
+    - destruct g; [|cbn in Hn; lia]. cbn [app gitems] in *.
+      eapply runs_cont; [apply pull_on, sorT; assumption|exact Hb|exact Hr].
+    - destruct g as [|a g]; [cbn [app gitems] in *; eapply runs_cont; [apply pull_on, sorT; assumption|exact Hb|exact Hr]|].
+      inversion Hg as [|? ? Ha Hg']; subst. cbn [length] in Hn. cbn [app gitems] in *.
+      destruct Ha as [Ha|[Ha [Hc Hu]]]; rewrite Ha in *.
+      + (* whitespace: look at the next non-S token *)
+        pose proof (sorS a (g ++ x :: R) Ha) as Hs. rewrite (dropS_app g x R Hg' Hx1) in Hs.
+        destruct (dropS_spec g Hg') as [[H1 H2]|[c [g3 [H1 [H2 [H3 [H4 [H5 [H6 H7]]]]]]]]]; rewrite H1 in Hs; cbn [app] in Hs.
+        * rewrite Hx3 in Hs. rewrite H2 in Hb.
+          eapply runs_cont; [apply pull_on; exact Hs|exact Hb|exact Hr].
+        * rewrite H4, H3 in Hs. rewrite H7 in Hb.
+          eapply runs_cont; [apply pull_on; exact Hs|rewrite body_comment; [reflexivity|reflexivity|exact H3]|].
+          simpl_st. eapply (IH g3); [lia|exact H5|exact Hb|exact Hr].
+      + eapply runs_cont; [apply pull_on, sorC; assumption|rewrite body_comment; [reflexivity|reflexivity|exact Hc]|].
+        simpl_st. eapply (IH g); [lia|exact Hg'|exact Hb|exact Hr].
+  Qed.
+End Gaps.
+
+
+(* ================================================================== Stage 2: the PropertyValue loop *)
+Section PV.
+  Variable D : nat.
+  Notation RUN := (runs opts0 (subR D) postR).
+  Notation S0 := (stS0 pv_ts pv_ops pv_pe).
+  Notation A0 := (stA0 pv_ts pv_ops pv_pe).
+  Notation A := (stA pv_ts pv_ops pv_pe).
+  Notation B := (stB pv_ts pv_ops pv_pe).
+
+  (* after a term: the term productions carry nextSor, so own = SOn and defaultS = False *)
+  Definition PVon (stk : list frame) (seq : list item) (rest : list tok) : lstate :=
+    mkLs stk seq [] true true false false false false true None SOn false rest stash0.
+  Definition PVoff (stk : list frame) (seq : list item) (started dS strict : bool) (rest : list tok) : lstate :=
+    mkLs stk seq [] true started false dS false false strict None SOff false rest stash0.
+
+  Inductive isA : list frame -> nat -> Prop := IA0 : isA A0 0 | IAk k : isA (A k) k.
+  Inductive term_trans : list frame -> list frame -> Prop :=
+  | TT_S0 : term_trans S0 A0
+  | TT_A stk k : isA stk k -> term_trans stk (A (S k))
+  | TT_B k : term_trans (B k) (A (S k)).
+
+  (* what the loop needs to know about the first token of a term ... *)
+  Definition term_head (t0 : tok) (i : nat) : Prop :=
+    plain_ty (ty t0) /\ isS t0 = false /\ is_sub (val t0) until = false /\
+    tmatches (ChoOp pv_ops) (Some t0) = false /\ tok_matches pv_pe (Some t0) = false /\
+    (exists a, cho_scan pv_ts (Some t0) false = (Some (PProd (pv_p i)), a)) /\ i < 8.
+  (* ... and about the sub-parser the selected production starts on pushtoken(t0, ts ++ R) *)
+  Definition term_sub (t0 : tok) (ts : list tok) (i : nat) (obj : item) : Prop :=
+    exists lbl g its pc,
+      p_toseq (pv_p i) = ASub (Some lbl) g /\ obj = IObj lbl g true its [] /\ postR g = Some pc /\
+      forall R, exists r, subR D g false t0 (ts ++ R) = Ret r /\ r_rest r = R /\ r_stash r = stash0 /\
+                          post pc r = PRet true its [].
+
+  Lemma isC_plain t : plain_ty (ty t) -> isC t = false. Proof. intros [H _]. exact H. Qed.
+
+  Lemma find_term stk stk' t0 i : term_trans stk stk' -> term_head t0 i ->
+    find (find_fuel stk) stk t0 = FFound (pv_p i) stk'.
+  Proof.
+    intros Ht [_ [_ [_ [Hop [He [[a Hc] _]]]]]]. destruct Ht as [|stk k0 [|k]|k].
+    - exact (find_S0_term pv_ts pv_ops pv_pe pv_ot _ _ _ Hc _).
+    - exact (find_A0_term pv_ts pv_ops pv_pe pv_pe_opt pv_ot _ _ _ Hop He Hc _).
+    - exact (find_A_term pv_ts pv_ops pv_pe pv_pe_opt pv_ot _ _ _ Hop He Hc k _).
+    - exact (find_B_term pv_ts pv_ops pv_pe pv_pe_opt pv_ot _ _ _ He Hc k _).
+  Qed.
+  Lemma find_op stk k x p a : isA stk k -> cho_scan pv_ops (Some x) false = (Some (PProd p), a) ->
+    find (find_fuel stk) stk x = FFound p (B k).
+  Proof.
+    intros [|k'] Hc.
+    - exact (find_A0_op pv_ts pv_ops pv_pe _ _ _ Hc _).
+    - exact (find_A_op pv_ts pv_ops pv_pe _ _ _ Hc k' _).
+  Qed.
+
+  (* ---- one term: the body of the loop on its first token, the stream already advanced past it *)
+  Lemma pv_term_body stk stk' t0 ts i obj seq started dS strict R :
+    term_trans stk stk' -> term_head t0 i -> term_sub t0 ts i obj ->
+    body opts0 (subR D) postR t0 (PVoff stk seq started dS strict (ts ++ R)) = LCont (PVon stk' (obj :: seq) R).
+  Proof.
+    intros Ht Hh [lbl [g [its [pc [Hto [Hobj [Hpc Hsub]]]]]]].
+    pose proof Hh as [Hpl [HS [_ [_ [_ [_ Hi]]]]]].
+    destruct (pv_p_flags i Hi) as [F1 [F2 [F3 [F4 [F5 [F6 _]]]]]].
+    destruct (Hsub R) as [r [Hr [Hrest [Hst Hpost]]]].
+    unfold PVoff. rewrite body_find; [|reflexivity|exact Hpl|cbn [l_defaultS]; rewrite HS; apply andb_false_r].
+    cbn [l_stack]. rewrite (find_term stk stk' t0 i Ht Hh). simpl_st.
+    rewrite (process_sub (subR D) postR (pv_p i) t0 (Some lbl) g _ _ _ _ _ _ _ _ _ _ _ _ _ _ r pc true its [] F1 Hto F2 F3 Hr Hpc Hpost).
+    rewrite F4, F5, F6, Hrest, Hst, Hobj. reflexivity.
+  Qed.
+
+  (* ---- `,` and `/` *)
+  Lemma pv_op_body stk k x seq R : isA stk k -> x = ch "," \/ x = ch "/" ->
+    body opts0 (subR D) postR x (PVoff stk seq true false true R) =
+    LCont (PVoff (B k) (IStr (s "operator") (val x) :: seq) true true true R).
+  Proof.
+    intros HA [->| ->]; unfold PVoff; (rewrite body_find; [|reflexivity|repeat split; reflexivity|reflexivity]); cbn [l_stack].
+    - rewrite (find_op stk k _ _ _ HA pv_class_comma). simpl_st.
+      rewrite (process_plain_cont _ _ (pv_o 1) (ch ",") _ (s "operator") (s ",") eq_refl eq_refl eq_refl eq_refl eq_refl). reflexivity.
+    - rewrite (find_op stk k _ _ _ HA pv_class_slash). simpl_st.
+      rewrite (process_plain_cont _ _ (pv_o 2) (ch "/") _ (s "operator") (s "/") eq_refl eq_refl eq_refl eq_refl eq_refl). reflexivity.
+  Qed.
+  (* ---- whitespace yielded by the _SorTokens filter: the `whitespace` operator, toSeq=False, mayEnd *)
+  Lemma pv_ws_body stk k a seq own R : isA stk k -> isS a = true ->
+    body opts0 (subR D) postR a (mkLs stk seq [] true true false false false false true None own false R stash0) =
+    LCont (mkLs (B k) seq [] true true false true false false false None own false R stash0).
+  Proof.
+    intros HA Ha. destruct (pv_class_ws a Ha) as [b Hb].
+    rewrite body_find; [|reflexivity|exact (isS_plain a Ha)|reflexivity]. cbn [l_stack].
+    rewrite (find_op stk k _ _ _ HA Hb). simpl_st.
+    rewrite (process_false _ _ (pv_o 0) a _ eq_refl eq_refl eq_refl eq_refl). reflexivity.
+  Qed.
+
+  (* (G3) own = SOn: a gap before a term.  Either the filter yields one S (then the term comes from its lookahead
+     cell: stA -> stB -> stA) or the term follows a comment directly (stA -> stA); both end in the same state *)
+  Lemma pv_gap_term t0 ts i obj : term_head t0 i -> term_sub t0 ts i obj ->
+    forall n g, length g <= n -> gapT g -> forall stk k seq R r, isA stk k ->
+    RUN (PVon (A (S k)) (obj :: gitems g seq) R) r -> RUN (PVon stk seq (g ++ t0 :: ts ++ R)) r.
+  Proof.
+    intros Hh Hs. pose proof Hh as [Hpl [HS [Hu _]]]. pose proof (isC_plain _ Hpl) as HC.
+    assert (Hdirect : forall stk k seq R r, isA stk k ->
+              RUN (PVon (A (S k)) (obj :: seq) R) r -> RUN (PVon stk seq (t0 :: ts ++ R)) r).
+    { intros stk k seq R r HA H. eapply runs_cont; [apply pull_on, sorT; assumption| |exact H].
+      exact (pv_term_body stk (A (S k)) t0 ts i obj seq true false true R (TT_A _ _ HA) Hh Hs). }
+    induction n as [|n IH]; intros g Hn Hg stk k seq R r HA H.
+    - destruct g; [|cbn in Hn; lia]. cbn [app gitems] in *. exact (Hdirect _ _ _ _ _ HA H).
+    - destruct g as [|a g]; [cbn [app gitems] in *; exact (Hdirect _ _ _ _ _ HA H)|].
+      inversion Hg as [|? ? Ha Hg']; subst. cbn [length] in Hn. cbn [app gitems] in *.
+      destruct Ha as [Ha|[Ha [Hc Hcu]]]; rewrite Ha in *.
+      + pose proof (sorS a (g ++ t0 :: ts ++ R) Ha) as Hsr. rewrite (dropS_app g t0 (ts ++ R) Hg' HS) in Hsr.
+        destruct (dropS_spec g Hg') as [[H1 H2]|[c [g3 [H1 [H2 [H3 [H4 [H5 [H6 H7]]]]]]]]]; rewrite H1 in Hsr; cbn [app] in Hsr.
+        * rewrite Hu, HC in Hsr. rewrite H2 in H.
+          eapply runs_cont; [apply pull_on; exact Hsr|exact (pv_ws_body stk k a seq _ _ HA Ha)|].
+          eapply runs_cont; [reflexivity| |exact H].
+          exact (pv_term_body (B k) (A (S k)) t0 ts i obj seq true true false R (TT_B k) Hh Hs).
+        * rewrite H4, H3 in Hsr. rewrite H7 in H.
+          eapply runs_cont; [apply pull_on; exact Hsr|rewrite body_comment; [reflexivity|reflexivity|exact H3]|].
+          simpl_st. eapply (IH g3); [lia|exact H5|exact HA|exact H].
+      + eapply runs_cont; [apply pull_on, sorC; assumption|rewrite body_comment; [reflexivity|reflexivity|exact Hc]|].
+        simpl_st. eapply (IH g); [lia|exact Hg'|exact HA|exact H].
+  Qed.
+
+  (* (G2') own = SOn: a gap, then `,` or `/` *)
+  Lemma pv_gap_op x g stk k seq R r : x = ch "," \/ x = ch "/" -> gapT g -> isA stk k ->
+    RUN (PVoff (B k) (IStr (s "operator") (val x) :: gitems g seq) true true true R) r ->
+    RUN (PVon stk seq (g ++ x :: R)) r.
+  Proof.
+    intros Hx Hg HA H.
+    eapply (gap_on_until (subR D) postR x); [..|exact (pv_op_body stk k x (gitems g seq) R HA Hx)|exact H];
+      [destruct Hx as [->| ->]; reflexivity..|apply le_n|exact Hg].
+  Qed.
+
+  Lemma finish_pv stk seq dS strict own :
+    final stk strict true = FinOk true -> seq <> [] ->
+    finish opts0 (mkLs stk seq [] true true false dS false false strict None own false [] stash0) =
+    Ret (mkRes true (rev (rstripS seq)) [] false None own false [] stash0).
+  Proof. intros Hf Hne. unfold finish. simpl_st. rewrite Hf. destruct seq; [congruence|reflexivity]. Qed.
+
+  Lemma final_isA stk k strict : isA stk k -> final stk strict true = FinOk true.
+  Proof. intros [|k']; [apply final_A0|apply (final_A _ _ _ pv_pe_opt pv_ot)]. Qed.
+
+  Lemma gitems_ne g : forall seq, seq <> [] -> gitems g seq <> [].
+  Proof. induction g as [|a g IH]; intros seq H; cbn [gitems]; [exact H|]. apply IH. destruct (isS a); [exact H|discriminate]. Qed.
+
+  (* (G4) own = SOn: the gap at the end of the value.  The parse ends after a term (stA, lastprod = the term) or after
+     the `whitespace` operator (stB, mayEnd) *)
+  Lemma pv_tail : forall n g, length g <= n -> gapT g -> forall stk k seq, isA stk k -> seq <> [] ->
+    exists r, RUN (PVon stk seq g) r /\ r_wf r = true /\ r_items r = rev (rstripS (gitems g seq)).
+  Proof.
+    assert (Hend : forall stk k seq, isA stk k -> seq <> [] ->
+              exists r, RUN (PVon stk seq []) r /\ r_wf r = true /\ r_items r = rev (rstripS seq)).
+    { intros stk k seq HA Hne. eexists. split; [eapply runs_end; [apply pull_on_end|]; exact (finish_pv stk seq false true SOn (final_isA _ _ _ HA) Hne)|split; reflexivity]. }
+    induction n as [|n IH]; intros g Hn Hg stk k seq HA Hne.
+    - destruct g; [|cbn in Hn; lia]. exact (Hend _ _ _ HA Hne).
+    - destruct g as [|a g]; [exact (Hend _ _ _ HA Hne)|].
+      inversion Hg as [|? ? Ha Hg']; subst. cbn [length] in Hn. cbn [gitems].
+      destruct Ha as [Ha|[Ha [Hc Hcu]]]; rewrite Ha.
+      + pose proof (sorS a g Ha) as Hsr.
+        destruct (dropS_spec g Hg') as [[H1 H2]|[c [g3 [H1 [H2 [H3 [H4 [H5 [H6 H7]]]]]]]]]; rewrite H1 in Hsr.
+        * rewrite H2. eexists. split.
+          { eapply runs_cont; [apply pull_on; exact Hsr|exact (pv_ws_body stk k a seq _ _ HA Ha)|].
+            eapply runs_end; [reflexivity|].
+            exact (finish_pv (B k) seq true false SOff (final_B _ _ _ pv_pe_opt pv_ot k true) Hne). }
+          split; reflexivity.
+        * rewrite H4, H3 in Hsr. rewrite H7.
+          destruct (IH g3 ltac:(lia) H5 stk k (cmt c :: seq) HA ltac:(discriminate)) as [r [Hr [Hw Hi]]].
+          exists r. split; [|split; assumption].
+          eapply runs_cont; [apply pull_on; exact Hsr|rewrite body_comment; [reflexivity|reflexivity|exact H3]|].
+          simpl_st. exact Hr.
+      + destruct (IH g ltac:(lia) Hg' stk k (cmt a :: seq) HA ltac:(discriminate)) as [r [Hr [Hw Hi]]].
+        exists r. split; [|split; assumption].
+        eapply runs_cont; [apply pull_on, sorC; assumption|rewrite body_comment; [reflexivity|reflexivity|exact Hc]|].
+        simpl_st. exact Hr.
+  Qed.
+End PV.
+
+
+(* ================================================================== Stage 2: a whole value *)
+Definition op_item (c : string) : item := IStr (s "operator") (s c).
+(* the reversed item sequence after a separator *)
+Definition sep_seq (lay : layout) (sp : sep) (seq : list item) : list item :=
+  match sp with
+  | SepSp g => gitems (greq lay g) seq
+  | SepComma g1 g2 => gitems (gopt lay g2) (op_item "," :: gitems (gopt lay g1) seq)
+  | SepSlash g1 g2 => gitems (gopt lay g2) (op_item "/" :: gitems (gopt lay g1) seq)
+  end.
+
+Section Value.
+  Variable D : nat.
+  Variable lay : layout.
+  Variable tobj : term -> item.
+  Notation RUN := (runs opts0 (subR D) postR).
+
+  Definition tspec (t : term) : Prop :=
+    exists t0 ts i, r_term lay t = t0 :: ts /\ term_head t0 i /\ term_sub D t0 ts i (tobj t).
+
+  Fixpoint more_seq (more : list (sep * term)) (seq : list item) : list item :=
+    match more with [] => seq | (sp, t) :: r => more_seq r (tobj t :: sep_seq lay sp seq) end.
+
+  Lemma pv_sep_term sp t stk k seq R r : tspec t -> isA stk k ->
+    RUN (PVon (stA pv_ts pv_ops pv_pe (S k)) (tobj t :: sep_seq lay sp seq) R) r ->
+    RUN (PVon stk seq (r_sep lay sp ++ r_term lay t ++ R)) r.
+  Proof.
+    intros [t0 [ts [i [Hr [Hh Hs]]]]] HA H. rewrite Hr. cbn [app].
+    assert (Hop : forall x g1 g2, x = ch "," \/ x = ch "/" ->
+              RUN (PVon (stA pv_ts pv_ops pv_pe (S k))
+                        (tobj t :: gitems (gopt lay g2) (IStr (s "operator") (val x) :: gitems (gopt lay g1) seq)) R) r ->
+              RUN (PVon stk seq ((gopt lay g1 ++ x :: gopt lay g2) ++ t0 :: ts ++ R)) r).
+    { intros x g1 g2 Hx H'. rewrite <- app_assoc. cbn [app].
+      apply (pv_gap_op D x _ stk k seq _ r Hx (gopt_gap lay g1) HA). unfold PVoff.
+      apply gap_off; [apply gopt_gap|]. eapply runs_cont; [reflexivity| |exact H'].
+      exact (pv_term_body D _ _ t0 ts i (tobj t) _ true true true R (TT_B k) Hh Hs). }
+    destruct sp as [g|g1 g2|g1 g2]; cbn [r_sep sep_seq] in *.
+    - exact (pv_gap_term D t0 ts i (tobj t) Hh Hs _ _ (le_n _) (greq_gap lay g) stk k seq R r HA H).
+    - apply Hop; [left; reflexivity|exact H].
+    - apply Hop; [right; reflexivity|exact H].
+  Qed.
+
+  Lemma pv_more : forall more, Forall (fun p => tspec (snd p)) more -> forall stk k seq gx, isA stk k -> seq <> [] ->
+    exists r, RUN (PVon stk seq (flat_map (fun p => r_sep lay (fst p) ++ r_term lay (snd p)) more ++ gopt lay gx)) r /\
+              r_wf r = true /\ r_items r = rev (rstripS (gitems (gopt lay gx) (more_seq more seq))).
+  Proof.
+    intros more Hm. induction Hm as [|[sp t] more Ht Hm IH]; intros stk k seq gx HA Hne; cbn [flat_map more_seq app fst snd].
+    - exact (pv_tail D _ _ (le_n _) (gopt_gap lay gx) stk k seq HA Hne).
+    - destruct (IH _ (S k) (tobj t :: sep_seq lay sp seq) gx (IAk (S k)) ltac:(discriminate)) as [r [Hr [Hw Hi]]].
+      exists r. split; [|split; assumption]. rewrite <- !app_assoc.
+      exact (pv_sep_term sp t stk k seq _ r Ht HA Hr).
+  Qed.
+
+  (* the reversed item sequence of the whole value *)
+  Definition value_seq (g2 : nat) (first : term) (more : list (sep * term)) (gx : nat) : list item :=
+    gitems (gopt lay gx) (more_seq more (tobj first :: gitems (gopt lay g2) [])).
+
+  Lemma value_run g2 first more gx : tspec first -> Forall (fun p => tspec (snd p)) more ->
+    exists r, pparse_env (S D) env_real gid_PropertyValue
+                (gopt lay g2 ++ (r_term lay first ++ flat_map (fun p => r_sep lay (fst p) ++ r_term lay (snd p)) more) ++ gopt lay gx) = Ret r /\
+              r_wf r = true /\ r_items r = rev (rstripS (value_seq g2 first more gx)).
+  Proof.
+    intros [t0 [ts [i [Hr [Hh Hs]]]]] Hm.
+    destruct (pv_more more Hm _ 0 (tobj first :: gitems (gopt lay g2) []) gx IA0 ltac:(discriminate)) as [r [Hrun [Hw Hi]]].
+    exists r. split; [|split; assumption].
+    unfold pparse_env. rewrite (pparse_sub_S D 3 _ false None _ eq_refl).
+    eapply runs_parse; [apply subR_ok|apply pv_init|].
+    apply gap_off; [apply gopt_gap|]. rewrite Hr, <- !app_assoc. cbn [app].
+    eapply runs_cont; [reflexivity| |exact Hrun].
+    exact (pv_term_body D _ _ t0 ts i (tobj first) _ false true false _ TT_S0 Hh Hs).
+  Qed.
+End Value.
+
+
+(* ================================================================== Stage 2: the single-token terms *)
+(* a token value that neither the _SorTokens filter (`until`) nor the operator / END productions can mistake *)
+Definition okw (v : str) : Prop := is_sub v until = false /\ eqs v (s ";") = false.
+Lemma okw_okv v : okw v -> okv v.
+Proof.
+  intros [H1 H2]. repeat split; [| |exact H2].
+  - destruct (eqs v (s ",")) eqn:E; [|reflexivity]. apply eqs_spec in E. subst v. discriminate H1.
+  - destruct (eqs v (s "/")) eqn:E; [|reflexivity]. apply eqs_spec in E. subst v. discriminate H1.
+Qed.
+
+Definition sobj (lbl : string) (g : nat) (t : string) (v : str) : item := IObj (s lbl) g true [IStr (s t) v] [].
+(* the object the interpreter builds for a term (inner items without comments / whitespace) *)
+Definition tobj (t : term) : item :=
+  match t with
+  | TmIdent v => if mem_s (normalize v) color_keys then sobj "ColorValue" 5 "IDENT" v else sobj "Value" 4 "IDENT" v
+  | TmNum n => sobj "DIMENSION" 6 "NUMBER" (num_lex n)
+  | TmDim n u => sobj "DIMENSION" 6 "DIMENSION" (normalize (num_lex n ++ u))
+  | TmPct n => sobj "DIMENSION" 6 "PERCENTAGE" (num_lex n ++ s "%")
+  | TmStr _ b => sobj "Value" 4 "STRING" b
+  | TmUrl _ b => sobj "URIValue" 7 "URI" b
+  | TmHex d => sobj "ColorValue" 5 "HASH" (35%N :: d)
+  | TmURange v => sobj "Value" 4 "UNICODE-RANGE" (lower v)
+  | _ => IObj [] 0 true [] []
+  end.
+
+(* side conditions on a single-token term; see the comment at value_accepts *)
+Definition wf_term (t : term) : Prop :=
+  match t with
+  | TmIdent v => okw v
+  | TmNum n => okw (num_lex n)
+  | TmDim n u => okw (num_lex n ++ u)
+  | TmPct n => okw (num_lex n ++ s "%")
+  | TmStr _ b => stringvalue (34%N :: b ++ [34%N]) = Some b /\ stringvalue (39%N :: b ++ [39%N]) = Some b
+  | TmUrl _ b => forall k, urivalue (url_text k b) = Some b
+  | TmHex d => hexcolor_re (35%N :: d) = true
+  | TmURange v => okw v
+  | _ => False
+  end.
+
+Lemma head_of_class fs tk i :
+  plain_ty (ty tk) -> isS tk = false -> is_sub (val tk) until = false -> facts_ok fs (ty tk) (val tk) ->
+  tm3 fs (ty tk) (ChoOp pv_ops) = Some false -> mev3 fs (ty tk) (p_match pv_pe) = Some false ->
+  scan3 fs (ty tk) pv_ts = Some (PProd (pv_p i)) -> i < 8 -> term_head tk i.
+Proof.
+  intros H1 H2 H3 Hf H4 H5 H6 H7. destruct (pv_class fs tk i Hf H4 H5 H6) as [G1 [G2 G3]].
+  unfold term_head. auto 10.
+Qed.
+
+Lemma sub_of_leaf D t0 i lbl g it pc :
+  (forall anc l, pparse_sub (S D) env_real g anc (Some t0) l = Ret (leaf_res it anc l)) ->
+  p_toseq (pv_p i) = ASub (Some lbl) g -> postR g = Some pc ->
+  (forall R, post pc (leaf_res it false R) = PRet true [it] []) ->
+  term_sub (S D) t0 [] i (IObj lbl g true [it] []).
+Proof.
+  intros H1 H2 H3 H4. exists lbl, g, [it], pc. repeat split; try assumption.
+  intros R. exists (leaf_res it false R). repeat split; [apply H1|apply H4].
+Qed.
+
+Ltac head_tac fs Hu Hf :=
+  apply (head_of_class fs); [repeat split; reflexivity|reflexivity|Hu|Hf|vm_compute; reflexivity|vm_compute; reflexivity|vm_compute; reflexivity|lia].
+Ltac okw_facts H := exact (okv_facts_ok _ _ (okw_okv _ H)).
+
+Lemma tspec_simple D lay t : wf_term t -> tspec (S D) lay tobj t.
+Proof.
+  destruct t as [v|n|n u|n|gq b|gq b|d| | | |v]; cbn [wf_term]; intros H; try contradiction; unfold tspec; cbn [r_term tobj].
+  - (* IDENT *)
+    destruct (mem_s (normalize v) color_keys) eqn:Ec.
+    + exists (T "IDENT" v), [], 0. split; [reflexivity|]. split.
+      * head_tac ((MNormIn color_keys, true) :: okv_facts) ltac:(exact (proj1 H))
+          ltac:(constructor; [exact Ec|okw_facts H]).
+      * apply (sub_of_leaf D _ 0 _ 5 _ PostColor); [intros; apply leaf5_ident; exact Ec|reflexivity|reflexivity|reflexivity].
+    + exists (T "IDENT" v), [], 3. split; [reflexivity|]. split.
+      * head_tac ((MNormIn color_keys, false) :: okv_facts) ltac:(exact (proj1 H))
+          ltac:(constructor; [exact Ec|okw_facts H]).
+      * apply (sub_of_leaf D _ 3 _ 4 _ PostFirst); [intros; apply leaf4_ident|reflexivity|reflexivity|reflexivity].
+  - exists (T "NUMBER" (num_lex n)), [], 1. split; [reflexivity|]. split.
+    + head_tac okv_facts ltac:(exact (proj1 H)) ltac:(okw_facts H).
+    + apply (sub_of_leaf D _ 1 _ 6 _ PostDim); [intros; apply leaf6_number|reflexivity|reflexivity|reflexivity].
+  - exists (T "DIMENSION" (num_lex n ++ u)), [], 1. split; [reflexivity|]. split.
+    + head_tac okv_facts ltac:(exact (proj1 H)) ltac:(okw_facts H).
+    + apply (sub_of_leaf D _ 1 _ 6 _ PostDim); [intros; apply leaf6_dimension|reflexivity|reflexivity|reflexivity].
+  - exists (T "PERCENTAGE" (num_lex n ++ s "%")), [], 1. split; [reflexivity|]. split.
+    + head_tac okv_facts ltac:(exact (proj1 H)) ltac:(okw_facts H).
+    + apply (sub_of_leaf D _ 1 _ 6 _ PostDim); [intros; apply leaf6_percentage|reflexivity|reflexivity|reflexivity].
+  - (* STRING *)
+    unfold r_string, quote_of. destruct H as [Hd Hs].
+    destruct (Nat.even (lk lay gq)).
+    + eexists _, [], 3. split; [reflexivity|]. split.
+      * head_tac okv_facts ltac:(reflexivity) ltac:(repeat constructor).
+      * apply (sub_of_leaf D _ 3 _ 4 _ PostFirst); [intros; apply leaf4_string; exact Hd|reflexivity|reflexivity|reflexivity].
+    + eexists _, [], 3. split; [reflexivity|]. split.
+      * head_tac okv_facts ltac:(reflexivity) ltac:(repeat constructor).
+      * apply (sub_of_leaf D _ 3 _ 4 _ PostFirst); [intros; apply leaf4_string; exact Hs|reflexivity|reflexivity|reflexivity].
+  - (* URI *)
+    unfold r_url. specialize (H (lk lay gq)). revert H. unfold url_text.
+    destruct (Nat.modulo (lk lay gq) 5) as [|[|[|[|m]]]]; intros H;
+      (eexists _, [], 2; split; [reflexivity|]; split;
+       [head_tac okv_facts ltac:(reflexivity) ltac:(repeat constructor)
+       |apply (sub_of_leaf D _ 2 _ 7 _ PostFirst); [intros; apply leaf7_uri; exact H|reflexivity|reflexivity|reflexivity]]).
+  - (* HASH *)
+    exists (T "HASH" (35%N :: d)), [], 0. split; [reflexivity|]. split.
+    + head_tac ((MHexRe, true) :: okv_facts) ltac:(reflexivity) ltac:(repeat constructor; exact H).
+    + apply (sub_of_leaf D _ 0 _ 5 _ PostColor); [intros; apply leaf5_hash; exact H|reflexivity|reflexivity|reflexivity].
+  - exists (T "UNICODE-RANGE" v), [], 3. split; [reflexivity|]. split.
+    + head_tac okv_facts ltac:(exact (proj1 H)) ltac:(okw_facts H).
+    + apply (sub_of_leaf D _ 3 _ 4 _ PostFirst); [intros; apply leaf4_urange|reflexivity|reflexivity|reflexivity].
+Qed.
+
+
+(* ================================================================== Stage 2: value_accepts *)
+(* the insignificant items: comments (and, inside calc(), whitespace) -- removed at every nesting level *)
+Definition drop_it (x : item) : bool :=
+  match x with IStr t _ => eqs t (s "CSSComment") || eqs t (s "S") | _ => false end.
+Fixpoint clean_it (it : item) : item :=
+  match it with
+  | IStr _ _ => it
+  | IObj l g w sub m =>
+      IObj l g w ((fix go (q : list item) : list item :=
+                     match q with [] => [] | x :: r => if drop_it x then go r else clean_it x :: go r end) sub) m
+  end.
+Fixpoint clean (q : list item) : list item :=
+  match q with [] => [] | x :: r => if drop_it x then clean r else clean_it x :: clean r end.
+Lemma clean_it_obj l g w sub m : clean_it (IObj l g w sub m) = IObj l g w (clean sub) m.
+Proof. reflexivity. Qed.
+Lemma clean_app a b : clean (a ++ b) = clean a ++ clean b.
+Proof. induction a as [|x a IH]; cbn [app clean]; [reflexivity|]. destruct (drop_it x); rewrite IH; reflexivity. Qed.
+Definition cr (q : list item) : list item := clean (rev q).
+Lemma cr_cons x q : cr (x :: q) = cr q ++ clean [x].
+Proof. unfold cr. cbn [rev]. apply clean_app. Qed.
+Lemma cr_gitems g : forall q, cr (gitems g q) = cr q.
+Proof.
+  induction g as [|a g IH]; intros q; cbn [gitems]; [reflexivity|]. rewrite IH. destruct (isS a); [reflexivity|].
+  rewrite cr_cons. cbn. apply app_nil_r.
+Qed.
+
+Definition sep_items (sp : sep) : list item :=
+  match sp with SepSp _ => [] | SepComma _ _ => [op_item ","] | SepSlash _ _ => [op_item "/"] end.
+(* the expected objects of a value: one object per term, an ("operator", ",") / ("operator", "/") item per comma / slash *)
+Definition value_items (d : decl) : list item :=
+  clean [tobj (d_first d)] ++ flat_map (fun p => sep_items (fst p) ++ clean [tobj (snd p)]) (d_more d).
+
+Lemma cr_sep lay sp q : cr (sep_seq lay sp q) = cr q ++ sep_items sp.
+Proof.
+  destruct sp as [g|g1 g2|g1 g2]; cbn [sep_seq sep_items]; rewrite ?cr_gitems, ?cr_cons, ?cr_gitems; [symmetry; apply app_nil_r|reflexivity|reflexivity].
+Qed.
+Lemma cr_more lay more : forall q,
+  cr (more_seq lay tobj more q) = cr q ++ flat_map (fun p => sep_items (fst p) ++ clean [tobj (snd p)]) more.
+Proof.
+  induction more as [|[sp t] more IH]; intros q; cbn [more_seq flat_map fst snd]; [symmetry; apply app_nil_r|].
+  rewrite IH, cr_cons, cr_sep, <- !app_assoc. reflexivity.
+Qed.
+Lemma cr_value lay d gx : cr (value_seq lay tobj (d_g2 d) (d_first d) (d_more d) gx) = value_items d.
+Proof. unfold value_seq, value_items. rewrite cr_gitems, cr_more, cr_cons, cr_gitems. reflexivity. Qed.
+
+(* ---- the sequence ends in an object or a comment: Seq.rstrip removes nothing *)
+Definition notS (it : item) : Prop := eqs (item_ty it) (s "S") = false.
+Lemma tobj_notS t : notS (tobj t).
+Proof. destruct t; cbn [tobj]; try reflexivity. destruct (mem_s _ _); reflexivity. Qed.
+Lemma gitems_head g : forall o q, notS o -> exists o' q', gitems g (o :: q) = o' :: q' /\ notS o'.
+Proof.
+  induction g as [|a g IH]; intros o q Ho; cbn [gitems]; [eauto|]. destruct (isS a); [apply IH; exact Ho|]. apply IH. reflexivity.
+Qed.
+Lemma sep_head lay sp o q : notS o -> exists o' q', sep_seq lay sp (o :: q) = o' :: q' /\ notS o'.
+Proof.
+  intros Ho. destruct sp as [g|g1 g2|g1 g2]; cbn [sep_seq]; [apply gitems_head; exact Ho| |];
+    (destruct (gitems_head (gopt lay g1) o q Ho) as [o1 [q1 [E1 H1]]]; rewrite E1; apply gitems_head; reflexivity).
+Qed.
+Lemma more_head lay more : forall o q, notS o -> exists o' q', more_seq lay tobj more (o :: q) = o' :: q' /\ notS o'.
+Proof.
+  induction more as [|[sp t] more IH]; intros o q Ho; cbn [more_seq]; [eauto|]. apply IH. apply tobj_notS.
+Qed.
+Lemma rstrip_value lay g2 first more gx :
+  rstripS (value_seq lay tobj g2 first more gx) = value_seq lay tobj g2 first more gx.
+Proof.
+  unfold value_seq. destruct (more_head lay more (tobj first) (gitems (gopt lay g2) []) (tobj_notS first)) as [o [q [E H]]].
+  rewrite E. destruct (gitems_head (gopt lay gx) o q H) as [o' [q' [E' H']]]. rewrite E'. cbn [rstripS]. unfold notS in H'. rewrite H'. reflexivity.
+Qed.
+
+(* ---- PostPV: every object is well-formed and there is one *)
+Definition okit (it : item) : Prop := obj_wf it = true.
+Lemma tobj_ok t : okit (tobj t) /\ is_value_obj (tobj t) = true.
+Proof. destruct t; cbn [tobj]; try (split; reflexivity). destruct (mem_s _ _); split; reflexivity. Qed.
+Lemma gitems_ok g : forall q, Forall okit q -> Forall okit (gitems g q).
+Proof. induction g as [|a g IH]; intros q H; cbn [gitems]; [exact H|]. apply IH. destruct (isS a); [exact H|constructor; [reflexivity|exact H]]. Qed.
+Lemma gitems_in g x : forall q, In x q -> In x (gitems g q).
+Proof. induction g as [|a g IH]; intros q H; cbn [gitems]; [exact H|]. apply IH. destruct (isS a); [exact H|right; exact H]. Qed.
+Lemma sep_ok lay sp q : Forall okit q -> Forall okit (sep_seq lay sp q).
+Proof.
+  intros H. destruct sp; cbn [sep_seq]; [apply gitems_ok; exact H| |]; apply gitems_ok; (constructor; [reflexivity|apply gitems_ok; exact H]).
+Qed.
+Lemma sep_in lay sp q x : In x q -> In x (sep_seq lay sp q).
+Proof. intros H. destruct sp; cbn [sep_seq]; [apply gitems_in; exact H| |]; apply gitems_in; right; apply gitems_in; exact H. Qed.
+Lemma more_ok lay more : forall q, Forall okit q -> Forall okit (more_seq lay tobj more q).
+Proof.
+  induction more as [|[sp t] more IH]; intros q H; cbn [more_seq]; [exact H|]. apply IH. constructor; [apply tobj_ok|apply sep_ok; exact H].
+Qed.
+Lemma more_in lay more x : forall q, In x q -> In x (more_seq lay tobj more q).
+Proof. induction more as [|[sp t] more IH]; intros q H; cbn [more_seq]; [exact H|]. apply IH. right. apply sep_in. exact H. Qed.
+
+Lemma post_pv_value lay g2 first more gx r :
+  r_wf r = true -> r_items r = rev (value_seq lay tobj g2 first more gx) -> post PostPV r = PRet true (r_items r) [].
+Proof.
+  intros Hw Hi. unfold post. rewrite Hw, Hi. cbn [andb].
+  assert (H1 : existsb is_value_obj (rev (value_seq lay tobj g2 first more gx)) = true).
+  { apply existsb_exists. exists (tobj first). split; [|apply tobj_ok]. apply -> in_rev.
+    unfold value_seq. apply gitems_in, more_in. left. reflexivity. }
+  assert (H2 : forallb obj_wf (rev (value_seq lay tobj g2 first more gx)) = true).
+  { apply forallb_forall. intros x Hx. apply in_rev in Hx.
+    assert (Hall : Forall okit (value_seq lay tobj g2 first more gx)).
+    { unfold value_seq. apply gitems_ok, more_ok. constructor; [apply tobj_ok|apply gitems_ok; constructor]. }
+    rewrite Forall_forall in Hall. exact (Hall x Hx). }
+  rewrite H1, H2. reflexivity.
+Qed.
+
+(* ---- the theorem for values whose terms are single tokens *)
+Definition wf_value (d : decl) : Prop := wf_term (d_first d) /\ Forall (fun p => wf_term (snd p)) (d_more d).
+
+Lemma decl_value_shape lay d ga :
+  decl_value lay d (gopt lay ga) =
+  gopt lay (d_g2 d) ++ r_value lay d ++ gopt lay (match d_imp d with Some _ => d_g3 d | None => ga end).
+Proof. unfold decl_value. destruct (d_imp d); reflexivity. Qed.
+
+(* value_accepts (single-token fragment; d_imp = None and d_imp = Some _ alike: in both cases the value run ends with
+   an optional gap).  Depth budget 2: the PropertyValue parse and one leaf sub-parser per term. *)
+Theorem value_accepts D lay d ga : wf_value d ->
+  exists r, pparse_env (S (S D)) env_real gid_PropertyValue (decl_value lay d (gopt lay ga)) = Ret r /\
+            r_wf r = true /\ post PostPV r = PRet true (r_items r) [] /\ clean (r_items r) = value_items d.
+Proof.
+  intros [Hf Hm]. rewrite decl_value_shape. unfold r_value.
+  set (gx := match d_imp d with Some _ => d_g3 d | None => ga end).
+  destruct (value_run (S D) lay tobj (d_g2 d) (d_first d) (d_more d) gx (tspec_simple D lay _ Hf)) as [r [Hr [Hw Hi]]].
+  { eapply Forall_impl; [|exact Hm]. intros p Hp. apply tspec_simple. exact Hp. }
+  rewrite rstrip_value in Hi. exists r. split; [exact Hr|]. split; [exact Hw|]. split.
+  - exact (post_pv_value lay _ _ _ gx r Hw Hi).
+  - rewrite Hi. exact (cr_value lay d gx).
+Qed.
+
+
+(* the hypotheses of value_accepts are satisfiable: ex_decl = red 12, 12px / #abc "ab" url(u) *)
+Example ex_wf_value : wf_value ex_decl.
+Proof.
+  split; [split; reflexivity|].
+  repeat constructor; cbn [snd wf_term]; try (split; reflexivity); try reflexivity.
+  intros k. unfold url_text. destruct (Nat.modulo k 5) as [|[|[|[|m]]]]; reflexivity.
+Qed.
+Example ex_value_items : value_items ex_decl =
+  [sobj "ColorValue" 5 "IDENT" (s "red"); sobj "DIMENSION" 6 "NUMBER" (s "12"); op_item ",";
+   sobj "DIMENSION" 6 "DIMENSION" (s "12px"); op_item "/"; sobj "ColorValue" 5 "HASH" (s "#abc");
+   sobj "Value" 4 "STRING" (s "ab"); sobj "URIValue" 7 "URI" (s "u")].
+Proof. vm_compute. reflexivity. Qed.
+
+
+(* ================================================================== Stage 4 (single-token fragment): the reader *)
+(* int(lexeme) / float(lexeme): the lexeme of a number back to sign / integer digits / fraction digits *)
+Fixpoint split_dot (x : str) : str * option str :=
+  match x with
+  | [] => ([], None)
+  | c :: r => if N.eqb c 46 then ([], Some r) else let '(i, f) := split_dot r in (c :: i, f)
+  end.
+Definition parse_num (x : str) : num :=
+  match x with
+  | [] => mkNum 0 [] None
+  | c :: r => if N.eqb c 43 then let '(i, f) := split_dot r in mkNum 1 i f
+              else if N.eqb c 45 then let '(i, f) := split_dot r in mkNum 2 i f
+              else let '(i, f) := split_dot x in mkNum 0 i f
+  end.
+Lemma split_dot_digits i f : digits i = true ->
+  split_dot (i ++ match f with Some f => 46%N :: f | None => [] end) = (i, f).
+Proof.
+  induction i as [|c i IH]; intros Hd; cbn [app].
+  - destruct f; reflexivity.
+  - cbn [digits forallb] in Hd. apply andb_true_iff in Hd as [Hc Hd]. cbn [split_dot].
+    assert (N.eqb c 46 = false) as ->.
+    { unfold is_digit in Hc. apply andb_true_iff in Hc as [H1 H2]. apply N.leb_le in H1. apply N.eqb_neq. lia. }
+    rewrite (IH Hd). reflexivity.
+Qed.
+Lemma parse_num_lex n : digits (nint n) = true -> nsign n <= 2 -> parse_num (num_lex n) = n.
+Proof.
+  destruct n as [sg i f]. cbn [nint nsign]. intros Hd Hs. unfold num_lex, sign_str. cbn [nsign nint nfrac].
+  pose proof (split_dot_digits i f Hd) as E.
+  destruct sg as [|[|[|sg]]]; [| | |lia].
+  - cbn [app s]. destruct i as [|c i]; cbn [app] in *.
+    + destruct f; reflexivity.
+    + cbn [digits forallb] in Hd. apply andb_true_iff in Hd as [Hc _]. unfold is_digit in Hc.
+      apply andb_true_iff in Hc as [H1 H2]. apply N.leb_le in H1.
+      unfold parse_num. assert (N.eqb c 43 = false) as -> by (apply N.eqb_neq; lia).
+      assert (N.eqb c 45 = false) as -> by (apply N.eqb_neq; lia). match goal with |- context [split_dot ?a] => replace (split_dot a) with (c :: i, f) by (symmetry; exact E) end. reflexivity.
+  - change (s "+" ++ i ++ match f with Some f0 => 46%N :: f0 | None => [] end) with (43%N :: i ++ match f with Some f0 => 46%N :: f0 | None => [] end).
+    unfold parse_num. rewrite N.eqb_refl. match goal with |- context [split_dot ?a] => replace (split_dot a) with (i, f) by (symmetry; exact E) end. reflexivity.
+  - change (s "-" ++ i ++ match f with Some f0 => 46%N :: f0 | None => [] end) with (45%N :: i ++ match f with Some f0 => 46%N :: f0 | None => [] end).
+    unfold parse_num. change (N.eqb 45 43) with false. rewrite N.eqb_refl. match goal with |- context [split_dot ?a] => replace (split_dot a) with (i, f) by (symmetry; exact E) end. reflexivity.
+Qed.
+
+(* DimensionValue: the numeric prefix and the unit of a (normalised) DIMENSION lexeme *)
+Definition numch (c : N) : bool := is_digit c || N.eqb c 43 || N.eqb c 45 || N.eqb c 46.
+Fixpoint dim_split (x : str) : str * str :=
+  match x with
+  | c :: r => if numch c then let '(a, b) := dim_split r in (c :: a, b) else ([], x)
+  | [] => ([], [])
+  end.
+
+(* the reader of the harness (c02.py x_value / canon_value / x_decls) on the item level.  The RGB triple of a colour
+   keyword is known for the colours of the generator grammar (Grammar.named_colors) only. *)
+Definition js_of_item (it : item) : js :=
+  match it with
+  | IStr t v => if eqs t (s "operator") then tag "OP" [JS v] else JL [JS t; JS v]
+  | IObj _ g _ [IStr t v] _ =>
+      match g with
+      | 5 => if eqs t (s "HASH")
+             then match hex_rgb (tl v) with Some (r, g, b) => m_color "HASH" r g b | None => tag "BAD" [] end
+             else match Selector.assoc_s (lower v) named_colors with
+                  | Some (r, g, b) => m_color "IDENT" r g b
+                  | None => tag "COLOR-UNKNOWN" [JS v]
+                  end
+      | 6 => if eqs t (s "NUMBER") then tag "NUMBER" [JS (num_val (parse_num v))]
+             else if eqs t (s "PERCENTAGE") then tag "PERCENTAGE" [JS (num_val (parse_num (removelast v)))]
+             else let '(a, b) := dim_split v in tag "DIMENSION" [JS (num_val (parse_num a)); JS b]
+      | 7 => tag "URI" [JS v]
+      | 4 => JL [JS t; JS v]
+      | _ => tag "UNSUPPORTED" []
+      end
+  | IObj _ _ _ _ _ => tag "UNSUPPORTED" []
+  end.
+Definition js_of_value_items (its : list item) : js := JL (map js_of_item its).
+
+(* PropertyValue(tokens) as the harness sees it; depth 2 = the PropertyValue parse + one leaf constructor *)
+Definition build_value (toks : list tok) : js :=
+  match pparse_env 2 env_real gid_PropertyValue toks with
+  | Ret r => js_of_value_items (clean (r_items r))
+  | _ => tag "rejected" []
+  end.
+
+Definition is_some {A} (o : option A) : bool := match o with Some _ => true | None => false end.
+(* additional side conditions for the object model: numbers are numbers of G, a colour keyword of the library is a
+   colour of G (and vice versa), a DIMENSION splits into its number and its (lower-cased) unit after normalize *)
+Definition wf_term_js (t : term) : Prop :=
+  match t with
+  | TmIdent v => mem_s (normalize v) color_keys = is_some (Selector.assoc_s (lower v) named_colors)
+  | TmNum n | TmPct n => digits (nint n) = true /\ nsign n <= 2
+  | TmDim n u => digits (nint n) = true /\ nsign n <= 2 /\ dim_split (normalize (num_lex n ++ u)) = (num_lex n, lower u)
+  | _ => True
+  end.
+Definition wf_value_js (d : decl) : Prop :=
+  wf_value d /\ wf_term_js (d_first d) /\ Forall (fun p => wf_term_js (snd p)) (d_more d).
+
+Lemma clean_tobj t : clean [tobj t] = [tobj t].
+Proof. destruct t; cbn [tobj]; try reflexivity. destruct (mem_s _ _); reflexivity. Qed.
+
+Lemma js_tobj t : wf_term t -> wf_term_js t -> js_of_item (tobj t) = m_term t.
+Proof.
+  destruct t as [v|n|n u|n|gq b|gq b|d| | | |v]; cbn [wf_term wf_term_js tobj m_term]; intros Hw Hj; try contradiction.
+  - rewrite Hj. destruct (Selector.assoc_s (lower v) named_colors) as [[[r g] b]|] eqn:E; cbn [is_some sobj js_of_item].
+    + change (eqs (s "IDENT") (s "HASH")) with false. cbn iota. rewrite E. reflexivity.
+    + reflexivity.
+  - destruct Hj as [H1 H2]. unfold sobj. cbn [js_of_item]. change (eqs (s "NUMBER") (s "NUMBER")) with true. cbn iota.
+    rewrite (parse_num_lex n H1 H2). reflexivity.
+  - destruct Hj as [H1 [H2 H3]]. unfold sobj. cbn [js_of_item].
+    change (eqs (s "DIMENSION") (s "NUMBER")) with false. change (eqs (s "DIMENSION") (s "PERCENTAGE")) with false. cbn iota.
+    rewrite H3, (parse_num_lex n H1 H2). reflexivity.
+  - destruct Hj as [H1 H2]. unfold sobj. cbn [js_of_item].
+    change (eqs (s "PERCENTAGE") (s "NUMBER")) with false. change (eqs (s "PERCENTAGE") (s "PERCENTAGE")) with true. cbn iota.
+    change (s "%") with [37%N]. rewrite removelast_last, (parse_num_lex n H1 H2). reflexivity.
+  - reflexivity.
+  - reflexivity.
+  - unfold sobj. cbn [js_of_item tl]. change (eqs (s "HASH") (s "HASH")) with true. cbn iota.
+    destruct (hex_rgb d) as [[[r g] b]|]; reflexivity.
+  - reflexivity.
+Qed.
+
+Lemma js_value_items d : wf_value_js d -> js_of_value_items (value_items d) = m_value d.
+Proof.
+  intros [[Hf Hm] [Jf Jm]]. unfold js_of_value_items, value_items, m_value. f_equal.
+  rewrite clean_tobj. cbn [map app]. rewrite (js_tobj _ Hf Jf). f_equal.
+  induction (d_more d) as [|[sp t] more IH]; [reflexivity|].
+  inversion Hm as [|? ? Hw Hm']; inversion Jm as [|? ? Hj Jm']; subst. cbn [snd fst] in *.
+  cbn [flat_map fst snd]. rewrite !map_app, clean_tobj, (IH Hm' Jm'). cbn [map]. rewrite (js_tobj _ Hw Hj).
+  destruct sp; reflexivity.
+Qed.
+
+(* value_grammar_faithful for the single-token fragment, in C02's shape *)
+Theorem value_grammar_faithful_simple lay d ga : wf_value_js d ->
+  build_value (decl_value lay d (gopt lay ga)) = m_value d.
+Proof.
+  intros Hw. destruct (value_accepts 0 lay d ga (proj1 Hw)) as [r [Hr [_ [_ Hc]]]].
+  unfold build_value. rewrite Hr, Hc. exact (js_value_items d Hw).
+Qed.
+
+Example ex_wf_value_js : wf_value_js ex_decl.
+Proof.
+  split; [exact ex_wf_value|]. split; [vm_compute; reflexivity|].
+  repeat constructor; try (vm_compute; lia); vm_compute; reflexivity.
+Qed.
